@@ -270,8 +270,11 @@ pub fn fullzip(_args: &hxlib::util::Args) -> i32 {
                 if nulls && !nullable {
                     continue;
                 }
-                for rows in [1usize, 5, 100] {
+                for rows0 in [1usize, 5, 100] {
                     for ty in ["i32", "f32", "i64", "fsb3"] {
+                      for (pre, post) in [(0usize, 0usize), (0, 7), (3, 0), (3, 7)] {
+                        if std::env::var("C25_SLICE").is_err() && (pre, post) != (0, 0) { continue; }
+                        let rows = rows0 + pre + post;
                         let vals = |i: usize| if nulls && i % 3 == 1 { None } else { Some(i as i64 * 7 + 1) };
                         let col: ArrayRef = match ty {
                             "i32" => Arc::new(Int32Array::from((0..rows).map(|i| vals(i).map(|v| v as i32)).collect::<Vec<_>>())),
@@ -279,6 +282,8 @@ pub fn fullzip(_args: &hxlib::util::Args) -> i32 {
                             "i64" => Arc::new(Int64Array::from((0..rows).map(|i| vals(i)).collect::<Vec<_>>())),
                             _ => Arc::new(FixedSizeBinaryArray::try_from_sparse_iter_with_size((0..rows).map(|i| vals(i).map(|v| vec![v as u8, 1, 2])), 3).unwrap()),
                         };
+                        let col: ArrayRef = col.slice(pre, rows0);
+                        let rows = rows0;
                         let col: ArrayRef = if std::env::var("C25_ALLTRUE").is_ok() && !nulls && nullable {
                             // a validity bitmap that is present and all true
                             arrow_array::make_array(col.to_data().into_builder().nulls(Some(arrow_buffer::NullBuffer::new_valid(rows))).build().unwrap())
@@ -291,7 +296,8 @@ pub fn fullzip(_args: &hxlib::util::Args) -> i32 {
                         let batch = RecordBatch::try_new(schema.clone(), vec![col]).unwrap();
                         let case = Case { version, schema, batches: vec![batch], opts_cache: if std::env::var("C25_CACHE1").is_ok() { Some(1) } else { None }, opts_maxp: None, keep: None, flavor: Flavor::Flat };
                         let f = run_case(&rt, &case, 1);
-                        println!("{version}\t{ty} nullable={nullable} nulls={nulls} rows={rows}\t{}", if f.is_empty() { "ok".to_string() } else { f[0].msg.replace('\n', " ").chars().take(170).collect::<String>() });
+                        println!("{version}\t{ty} nullable={nullable} nulls={nulls} rows={rows} pre={pre} post={post}\t{}", if f.is_empty() { "ok".to_string() } else { f[0].msg.replace('\n', " ").chars().take(170).collect::<String>() });
+                      }
                     }
                 }
             }
